@@ -309,7 +309,43 @@ func isHookOrGenerated(name string) bool {
 	return strings.HasSuffix(name, "verif_on.go") || strings.HasSuffix(name, "verif_off.go") || strings.HasSuffix(name, ".pb.go")
 }
 
+// callsOf lists, per function, every call of a method named `name` with its argument text.
+func callsOf(p *packages.Package, name string) []string {
+	var out []string
+	for _, file := range p.Syntax {
+		fn := p.Fset.Position(file.Pos()).Filename
+		if strings.HasSuffix(fn, "_test.go") || isHookOrGenerated(fn) {
+			continue
+		}
+		for _, d := range file.Decls {
+			fd, ok := d.(*ast.FuncDecl)
+			if !ok || fd.Body == nil {
+				continue
+			}
+			ast.Inspect(fd.Body, func(n ast.Node) bool {
+				call, ok := n.(*ast.CallExpr)
+				if !ok {
+					return true
+				}
+				if sel, ok := call.Fun.(*ast.SelectorExpr); ok && sel.Sel.Name == name {
+					var args []string
+					for _, a := range call.Args {
+						args = append(args, exprString(a))
+					}
+					out = append(out, fd.Name.Name+": "+exprString(sel.X)+"."+name+"("+strings.Join(args, ", ")+")")
+				}
+				return true
+			})
+		}
+	}
+	sort.Strings(out)
+	return out
+}
+
 func btFacts(p *packages.Package, f *Facts) {
+	// who runs garbage collection, and whether forced: the background loop must leave the decision
+	// (quiet or not) to table.gc itself
+	f.Facts["bt.gc_calls"] = callsOf(p, "gc")
 	f.Facts["bt.table_mutex"] = mutexDiscipline(p, "mu")
 	f.Facts["bt.tables_access_outside_server_mu"] = unguarded(p, "server",
 		map[string]string{"server.t": "tables"},
